@@ -2,7 +2,7 @@
 """Syntactic mutation sweep over one source file of pitt-rnel/pyrtma, judged by whole checks (`./check Cnn`).
 
     tools/mutate_check.py <worktree> <relative file> --checks C09[,C10...] [--only f1,f2] [--skip f1,f2]
-                          [--limit N] [--lines l1,l2] [--out file.jsonl] [--timeout S]
+                          [--limit N] [--lines l1,l2] [--out file.jsonl] [--timeout S] [--list]
 
 The worktree is a scratch `git worktree` of /repo (never /repo itself).  For every mutant (comparison / boolean operator
 swaps, 0<->1 constants, deleted simple statements, negated conditions, swapped `continue`/`break`, +/- swaps) of the file
@@ -19,6 +19,8 @@ def arg(name, default=None):
 
 
 wt, rel = sys.argv[1], sys.argv[2]
+VERIF = os.path.dirname(os.path.dirname(os.path.abspath(__file__)))      # the clone this tool lives in (not /verif)
+dry = "--list" in sys.argv                                                # only list the mutants that would run
 checks = arg("--checks").split(",")
 only = set(arg("--only").split(",")) if arg("--only") else None
 skip = set(arg("--skip").split(",")) if arg("--skip") else set()
@@ -125,7 +127,7 @@ def run_check(prop):
     env = dict(os.environ, PYRTMA_REPO=wt, VERIF_EVIDENCE_DIR=ev, VERIF_REPLAYS_DIR=rp, VERIF_NOCACHE="1")
     t0 = time.time()
     try:
-        p = subprocess.run(["/verif/check", prop], capture_output=True, text=True, env=env, timeout=timeout, cwd="/verif")
+        p = subprocess.run([os.path.join(VERIF, "check"), prop], capture_output=True, text=True, env=env, timeout=timeout, cwd=VERIF)
         rc, text = p.returncode, p.stdout + p.stderr
     except subprocess.TimeoutExpired:
         rc, text = 2, "timeout"
@@ -169,6 +171,10 @@ try:
         except SyntaxError:
             continue
         n += 1
+        if dry:
+            print(json.dumps({"n": n, "kind": kind, "func": f, "line": getattr(node, "lineno", 0), "before": before,
+                              "after": after}), file=out, flush=True)
+            continue
         open(path, "w").write(text)
         try:
             res = {p: run_check(p) for p in checks}
